@@ -1,2 +1,112 @@
-(* props/C09.v — placeholder while the proofs are being written *)
-Require Import Aiuti.Batcher.
+(* props/C09.v — C09: cancelling one batcher caller never disturbs the others.
+   ONLY theorem statements about the executable macro-step model
+   coq/theories/Batcher.v, each closed by a lemma of BatcherProps.v (invariants in
+   BatcherInv.v), with Print Assumptions beneath, and non-vacuity Examples.
+
+   The statements are those of props/C04.v for ALL event lists, now WITH arbitrary
+   [Cancel i] events at any position (caller queued, batch running before or after
+   the result, caller already answered, unknown caller), any number of them, mixed
+   with calls sharing the cancelled caller's key, chained calls, SetMax, time.
+   Vocabulary: see props/C04.v ([produced], [outcome_from_batch], [located]).
+
+   The model describes the repaired code (fix F4: callers await shield(fut), the key
+   is released by the future's done-callback).  On the unrepaired code the check
+   finds the scenario of DESIGN §6/F4 again (seeded/revert-F4). *)
+From Coq Require Import List Arith NArith Bool.
+Import ListNotations.
+Require Import Aiuti.Batcher Aiuti.BatcherLimits Aiuti.BatcherTime Aiuti.BatcherInv Aiuti.BatcherProps.
+
+(* Every completion in the trace is either the Cancelled of a caller that a Cancel
+   event of the list names, or exactly the outcome the batch function produced for
+   that caller's key in the batch that carried its future — whoever else was
+   cancelled, before, during or after that batch, in the same batch or sharing the
+   same key (a sharer's outcome is the outcome of the future it joined). *)
+Theorem own_outcome_under_cancel :
+  forall c evs, cfg_ok c -> Forall ev_ok evs ->
+  forall i o t, In (CallerDone i o t) (concat (fst (run c evs))) ->
+  let s := snd (run c evs) in
+  exists cl, nth_error (callers s) i = Some cl /\ cl_st cl = Some o /\
+             cl_key cl = key_of (cl_arg cl) (cl_ko cl) /\
+             ((o = Cancelled /\ In (Cancel i) evs) \/ outcome_from_batch s cl o).
+Proof. exact own_outcome_lemma. Qed.
+Print Assumptions own_outcome_under_cancel.
+
+(* Cancelled is reported only for a caller that a Cancel event names. *)
+Theorem cancelled_only_by_cancel :
+  forall c evs i t, In (CallerDone i Cancelled t) (concat (fst (run c evs))) -> In (Cancel i) evs.
+Proof. exact cancelled_only_by_cancel_lemma. Qed.
+Print Assumptions cancelled_only_by_cancel.
+
+(* After any event list with cancellations: a caller still waiting (in particular:
+   not cancelled) waits for a pending future whose item the batcher still holds
+   (open batch, queued batch, or futs of a running batch). *)
+Theorem always_answered_under_cancel :
+  forall c evs, cfg_ok c -> Forall ev_ok evs ->
+  let s := snd (run c evs) in
+  forall cl, In cl (callers s) -> cl_st cl = None ->
+    is_done s (cl_fid cl) = false /\
+    exists it, In it (g_items s) /\ it_key it = cl_key cl /\ it_fid it = cl_fid cl /\ located s it.
+Proof. exact always_answered_inv_lemma. Qed.
+Print Assumptions always_answered_under_cancel.
+
+(* ... and the end of a batch answers all its items, cancelled callers or not. *)
+Theorem batch_end_answers_under_cancel :
+  forall c evs b e, cfg_ok c -> Forall ev_ok evs -> (e = BFinish b \/ exists x, e = BRaise b x) ->
+  let s := snd (run c evs) in
+  forall B, find_batch s b = Some B ->
+  let s' := snd (run c (evs ++ [e])) in
+  (forall it, In it (b_items B) -> is_done s' (it_fid it) = true) /\
+  (forall cl it, In cl (callers s') -> In it (b_items B) -> cl_fid cl = it_fid it -> cl_st cl <> None).
+Proof. exact batch_end_answers_lemma. Qed.
+Print Assumptions batch_end_answers_under_cancel.
+
+(* No background task dies, whatever is cancelled (on the unrepaired code the
+   fan-out over two cancelled futures killed the batch task). *)
+Theorem no_task_died_under_cancel :
+  forall c evs, cfg_ok c -> Forall ev_ok evs -> ~ In TaskDied (concat (fst (run c evs))).
+Proof. exact no_task_died_lemma. Qed.
+Print Assumptions no_task_died_under_cancel.
+
+(* The batcher keeps serving: after ANY event list (any cancellations), a call whose
+   key is not remembered, followed by batch_timeout ticks, has by then been handed to
+   the batch function (a BatchStart containing it is in the trace) — unless all
+   max_concurrent_batches slots are taken, in which case it is queued for the next
+   free slot (props/C10.v says it starts the moment one frees). *)
+Theorem keeps_serving :
+  forall c evs a ko, cfg_ok c -> Forall ev_ok evs -> (0 < c_bt c)%N ->
+  let s := snd (run c evs) in
+  lookup (ret s) (key_of a ko) = None ->
+  let evs2 := evs ++ [Call a ko; Advance (c_bt c)] in
+  let s2 := snd (run c evs2) in
+  let it := mkitem (key_of a ko) a (nfut s) (now s) (maxb s) in
+  In it (g_items s2) /\
+  ((exists b its t, In (BatchStart b (map ka its) t) (concat (fst (run c evs2))) /\ In it its) \/
+   (length (running s2) = c_conc c /\ exists w, In w (waiting s2) /\ In it w)).
+Proof. exact keeps_serving_lemma. Qed.
+Print Assumptions keeps_serving.
+
+(* ---- non-vacuity --------------------------------------------------------------------- *)
+
+Definition ex_cfg := mkcfg 3 1 10%N 0%N.
+(* callers 0,1,2 (keys 1,2,1): 2 shares 0's future.  Caller 0 — the creator — is cancelled
+   while queued, caller 1 while the batch runs; the sharer 2 still gets key 1's value, and
+   a fresh call for key 1 afterwards is served by a new batch. *)
+Definition ex_evs :=
+  [Call 1 None; Call 2 None; Call 1 None; Cancel 0; Advance 10; Cancel 1;
+   BYield 0 2 (Val 8); BYield 0 1 (Val 7); BFinish 0; Call 1 None; Advance 10; BRaise 1 4].
+
+Example ex_hyps : cfg_ok ex_cfg /\ Forall ev_ok ex_evs.
+Proof. split; [split; simpl; auto | repeat constructor]. Qed.
+
+Example ex_trace :
+  map (filter is_done_obs) (fst (run ex_cfg ex_evs)) =
+  [[]; []; []; [CallerDone 0 Cancelled 0%N]; []; [CallerDone 1 Cancelled 10%N]; [];
+   [CallerDone 2 (Ret 7) 10%N]; []; []; []; [CallerDone 3 (RaisedExc 4) 20%N]].
+Proof. vm_compute. reflexivity. Qed.
+
+Example ex_no_death : ~ In TaskDied (concat (fst (run ex_cfg ex_evs))).
+Proof. vm_compute. intuition discriminate. Qed.
+
+(* keeps_serving's hypothesis holds after the cancellations: key 5 is not remembered *)
+Example ex_keeps : lookup (ret (snd (run ex_cfg (firstn 9 ex_evs)))) (key_of 5 None) = None /\ (0 < c_bt ex_cfg)%N.
+Proof. vm_compute. split; reflexivity. Qed.
